@@ -72,14 +72,14 @@ def _request_post(c, notify=False):
         implies(supplied(rid0), z3.And(c.new(p, "id") == rid0, c.gnew("uuid_ctr") == n)),
         implies(absent_id(rid0), z3.And(c.new(p, "id") == V.VStr(uuid_str(n)), c.gnew("uuid_ctr") == n + 1)))
     if not notify:
-        keys = keyset_if([("id", z3.BoolVal(True)), ("method", z3.BoolVal(True)), ("params", has_params),
-                          ("jsonrpc", is_v2(ver))])
+        keys = [("id", z3.BoolVal(True)), ("method", z3.BoolVal(True)), ("params", has_params),
+                ("jsonrpc", is_v2(ver))]
         idclause = z3.And(id_ok, get(r, "id") == c.new(p, "id"))
     else:
-        keys = keyset_if([("id", z3.Not(is_v2(ver))), ("method", z3.BoolVal(True)), ("params", has_params),
-                          ("jsonrpc", is_v2(ver))])
+        keys = [("id", z3.Not(is_v2(ver))), ("method", z3.BoolVal(True)), ("params", has_params),
+                ("jsonrpc", is_v2(ver))]
         idclause = z3.And(id_ok, implies(z3.Not(is_v2(ver)), get(r, "id") == V.VNone))
-    return z3.And(V.is_dict(r), Val.dhas(r) == keys, idclause, get(r, "method") == m,
+    return z3.And(V.is_dict(r), exact_keys(r, keys), idclause, get(r, "method") == m,
                   implies(has_params, get(r, "params") == z3.If(V.truthy(params), params, V.empty_list())),
                   implies(is_v2(ver), get(r, "jsonrpc") == V.S("2.0")))
 
@@ -104,7 +104,7 @@ def _response_shape(c, r, result_val):
     p = c.a.self
     ver = c.old(p, "version")
     return z3.And(V.is_dict(r),
-                  Val.dhas(r) == keyset_if([("result", z3.BoolVal(True)), ("id", z3.BoolVal(True)),
+                  exact_keys(r, [("result", z3.BoolVal(True)), ("id", z3.BoolVal(True)),
                                             ("jsonrpc", is_v2(ver)), ("error", z3.Not(is_v2(ver)))]),
                   get(r, "result") == result_val, get(r, "id") == c.old(p, "id"),
                   implies(is_v2(ver), get(r, "jsonrpc") == V.S("2.0")),
@@ -123,13 +123,13 @@ Contract(
 def _error_shape(c, r, rid, ver, code, message, data):
     e = get(r, "error")
     return z3.And(V.is_dict(r),
-                  Val.dhas(r) == keyset_if([("result", z3.Not(is_v2(ver))), ("id", z3.BoolVal(True)),
+                  exact_keys(r, [("result", z3.Not(is_v2(ver))), ("id", z3.BoolVal(True)),
                                             ("jsonrpc", is_v2(ver)), ("error", z3.BoolVal(True))]),
                   get(r, "id") == rid,
                   implies(is_v2(ver), get(r, "jsonrpc") == V.S("2.0")),
                   implies(z3.Not(is_v2(ver)), get(r, "result") == V.VNone),
                   V.is_dict(e),
-                  Val.dhas(e) == keyset_if([("code", z3.BoolVal(True)), ("message", z3.BoolVal(True)),
+                  exact_keys(e, [("code", z3.BoolVal(True)), ("message", z3.BoolVal(True)),
                                             ("data", z3.Not(V.is_none(data)))]),
                   get(e, "code") == code, get(e, "message") == message,
                   implies(z3.Not(V.is_none(data)), get(e, "data") == data))
@@ -160,7 +160,7 @@ Contract(
 Contract(
     "jsonrpclib.jsonrpc.Fault.error",
     ensures=[("members", lambda c: z3.And(
-        c.returns, V.is_dict(c.ret), Val.dhas(c.ret) == keyset("code", "message", "data"),
+        c.returns, V.is_dict(c.ret), exact_keys(c.ret, [("code", True), ("message", True), ("data", True)]),
         get(c.ret, "code") == c.old(c.a.self, "faultCode"), get(c.ret, "message") == c.old(c.a.self, "faultString"),
         get(c.ret, "data") == c.old(c.a.self, "data")), ("C14",))],
     modifies=[],
@@ -269,7 +269,7 @@ def _dump_post_build(c):
     newid = z3.If(absent_id(rid), V.VStr(uuid_str(n)), rid)
     req_shape = lambda notify: z3.And(
         V.is_dict(r),
-        Val.dhas(r) == keyset_if([("id", z3.BoolVal(True) if not notify else z3.Not(is_v2(ver))),
+        exact_keys(r, [("id", z3.BoolVal(True) if not notify else z3.Not(is_v2(ver))),
                                   ("method", z3.BoolVal(True)), ("params", has_params), ("jsonrpc", is_v2(ver))]),
         get(r, "method") == m,
         implies(has_params, get(r, "params") == z3.If(V.truthy(tp), tp, V.empty_list())),
@@ -289,7 +289,7 @@ def _dump_post_build(c):
         ("response_members", implies(z3.And(isresp, z3.Not(V.is_none(rid)), z3.Not(_is_fault(c, p)), z3.Or(z3.Not(m_str), listish),
                                             c.returns),
                                      z3.And(V.is_dict(r),
-                                            Val.dhas(r) == keyset_if([("result", z3.BoolVal(True)), ("id", z3.BoolVal(True)),
+                                            exact_keys(r, [("result", z3.BoolVal(True)), ("id", z3.BoolVal(True)),
                                                                       ("jsonrpc", is_v2(ver)), ("error", z3.Not(is_v2(ver)))]),
                                             get(r, "result") == tp, get(r, "id") == rid,
                                             implies(is_v2(ver), get(r, "jsonrpc") == V.S("2.0")),
@@ -406,6 +406,7 @@ Contract(
                                              z3.And(c.returns, c.ret == c.a.data,
                                                     c.gnew("imports") == c.gold("imports"),
                                                     c.gnew("constructs") == c.gold("constructs"))), ("C08", "C14")),
+        ("raises_exceptions_only", lambda c: implies(c.raised, c.raises(Exception)), ("C02", "C08")),
         ("translated_when_on", lambda c: implies(z3.And(V.truthy(c.old(c.a.config, "use_jsonclass")), z3.Not(V.is_none(c.a.data)),
                                                         c.returns),
                                                  c.ret == jcl(eff_classes(c.old(c.a.config, "classes")), c.a.data)), ("C14", "C07")),
@@ -419,7 +420,9 @@ Contract(
     kinds={"config": "obj:" + CONFIG, "data": "str"},
     requires=[("config", lambda c: valid_config(c, c.a.config))],
     ensures=[
-        ("empty_is_none", lambda c: implies(c.a.data == V.S(""), z3.And(c.returns, V.is_none(c.ret))), ("C14",)),
+        ("empty_is_none", lambda c: implies(c.a.data == V.S(""), z3.And(
+            c.returns, V.is_none(c.ret), c.gnew("imports") == c.gold("imports"),
+            c.gnew("constructs") == c.gold("constructs"), c.gnew("xlate_log") == c.gold("xlate_log"))), ("C14", "C08")),
         ("invalid_json_raises", lambda c: implies(z3.And(c.a.data != V.S(""), z3.Not(json_text(Val.s(c.a.data)))),
                                                   z3.And(c.raises(ValueError), c.gnew("imports") == c.gold("imports"),
                                                          c.gnew("constructs") == c.gold("constructs"),
@@ -429,6 +432,7 @@ Contract(
                                              z3.And(c.returns, c.ret == jloads_of(Val.s(c.a.data)),
                                                     c.gnew("imports") == c.gold("imports"),
                                                     c.gnew("constructs") == c.gold("constructs"))), ("C08", "C14")),
+        ("raises_exceptions_only", lambda c: implies(c.raised, c.raises(Exception)), ("C02", "C05", "C08")),
         ("translated_when_on", lambda c: implies(z3.And(c.a.data != V.S(""), json_text(Val.s(c.a.data)),
                                                         V.truthy(c.old(c.a.config, "use_jsonclass")), c.returns),
                                                  z3.If(V.is_none(jloads_of(Val.s(c.a.data))), V.is_none(c.ret),
